@@ -15,4 +15,7 @@ open('.filelist','w').write(s)
 PY
 rm -f .filelist.tmp
 timeout 3000 make -j14 -k 2>&1 | grep -v '^Closed under\|^COQC\|^COQDEP' | tail -30 || true
+# content stamps for the generated files (harness/common.py keeps a Gen/X.vo only if it was compiled from
+# exactly the present text of Gen/X.v)
+for v in Gen/*.v; do b=$(basename "$v" .v); [ -f "Gen/$b.vo" ] && sha256sum "$v" | cut -d' ' -f1 | tr -d '\n' > "Gen/.$b.sha"; done
 echo "setup done: $(find . -name '*.vo' | wc -l) .vo files"
